@@ -46,6 +46,14 @@ struct Case {
 const char *vf_property() { return "C20"; }
 void vf_init() {}
 
+// a controller: parameter number (low 7 bits + 10), MIDI channel and the NRPN flag, packed into the case's 'id' field as
+// par + 256*channel_choice + 1024*nrpn (plain numbers below 256 are channel 1, no NRPN, as in older case files)
+static int gen_controller(int nids) {
+  int par = vf::pickn(nids) + 10;
+  if (vf::chance(70)) return par;
+  return par + 256 * vf::pickn(3) + 1024 * vf::pickn(2);
+}
+static const int CHANNELS[3] = {1, 2, 10};
 Case vf_generate() {
   Case c;
   c.naddr = vf::pick<int>(2, 4);
@@ -59,7 +67,7 @@ Case vf_generate() {
       // then a few events of that controller (with random deliveries in between handled by the other ops)
       Op m; m.kind = 0; m.addr = vf::pickn(c.naddr); m.coarse = vf::chance(65);
       Op d1; d1.kind = 4; Op d2; d2.kind = 5;
-      Op cc; cc.kind = 1; cc.id = vf::pickn(c.nids) + 10; cc.val = vf::pick<int>(0, 127);
+      Op cc; cc.kind = 1; cc.id = gen_controller(c.nids); cc.val = vf::pick<int>(0, 127);
       c.ops.push_back(m); c.ops.push_back(d1); if (vf::coin()) c.ops.push_back(d1); c.ops.push_back(cc); c.ops.push_back(d2); c.ops.push_back(d1);
       int more = vf::pick<int>(1, 4);
       for (int j = 0; j < more; j++) { Op e = cc; e.val = vf::pick<int>(0, 127); c.ops.push_back(e); }
@@ -67,7 +75,7 @@ Case vf_generate() {
     }
     o.addr = vf::pickn(c.naddr);
     o.coarse = vf::chance(70);
-    o.id = vf::pickn(c.nids) + 10;
+    o.id = gen_controller(c.nids);
     o.val = vf::pick<int>(0, 127);
     if (k < 3) o.kind = 0;
     else if (k < 9) o.kind = 1;
@@ -105,6 +113,7 @@ std::string vf_run(const Case &c, vf::Ctx &ctx) {
   std::map<int, Bind> binds;   // address -> ids
   bool dup_id = false;         // an id assigned twice by in-flight races: outcomes for it are not judged
   auto snapshot = [&]() { View v; for (auto &b : binds) { if (b.second.coarse >= 0) v[b.second.coarse] = {b.first, true}; if (b.second.fine >= 0) v[b.second.fine] = {b.first, false}; } return v; };
+  std::map<int, int> lib_of, model_of;   // controller of the case <-> id the library uses for it
   std::vector<std::string> emitted_now;
   nrt.rt_cb = [&](const char *m) { emitted_now.push_back(std::string(m, rtosc_message_length(m, 1024))); };
   rt.setFrontendCb([&](const char *m) { if (!strcmp(m, "/midi-use-CC")) r2n.push_back(rtosc_argument(m, 0).i); });
@@ -202,8 +211,11 @@ std::string vf_run(const Case &c, vf::Ctx &ctx) {
       default: {
         backend.clear();
         size_t r2n_before = r2n.size();
-        rt.handleCC(o.id, o.val);
-        auto it = view.find(o.id);
+        rt.handleCC(o.id % 256, o.val, (char)CHANNELS[(o.id / 256) % 4 % 3], (o.id / 1024) != 0);
+        // the id under which the library talks about this controller is whatever it reported for it (two controllers
+        // must never share one); a controller that was never reported cannot have been assigned
+        const int lid = lib_of.count(o.id) ? lib_of[o.id] : -1000000 - o.id;
+        auto it = view.find(lid);
         if (it == view.end()) {
           cc_unbound++;
           if (!backend.empty() && !dup_id) return "controller " + std::to_string(o.id) + " is not assigned (in the realtime side's current mapping) but produced a parameter message" + W;
@@ -211,13 +223,19 @@ std::string vf_run(const Case &c, vf::Ctx &ctx) {
           // a not yet assigned controller is reported once (while a learn request is open), and not again while that
           // report is still unanswered
           bool asked = false;
-          for (int p : pend) if (p == o.id) asked = true;
+          for (int p : pend) if (p == lid) asked = true;
           bool expect_req = !asked && watch > 0 && pend.size() < 32;
           bool got_req = r2n.size() == r2n_before + 1;
-          if (got_req && r2n.back() != o.id) return "midi-use-CC names controller " + std::to_string(r2n.back()) + " for an event of controller " + std::to_string(o.id) + W;
+          if (got_req) {
+            int rid = r2n.back();
+            if (lib_of.count(o.id) && lib_of[o.id] != rid) return "controller " + std::to_string(o.id) + " is reported as " + std::to_string(rid) + ", earlier as " + std::to_string(lib_of[o.id]) + W;
+            if (model_of.count(rid) && model_of[rid] != o.id) return "two different controllers (parameter/channel/NRPN " + std::to_string(model_of[rid]) + " and " + std::to_string(o.id) + ") are reported under the same id " + std::to_string(rid) + W;
+            lib_of[o.id] = rid; model_of[rid] = o.id;
+          }
+          const int nlid = lib_of.count(o.id) ? lib_of[o.id] : lid;
           if (expect_req && !got_req) return "unassigned controller " + std::to_string(o.id) + " arrived while a learn request is open but no midi-use-CC was sent" + W;
           if (!expect_req && got_req) return std::string("controller ") + std::to_string(o.id) + (asked ? " was already reported and not yet answered" : " arrived with no learn request open") + ", yet midi-use-CC was sent again" + W;
-          if (got_req) { watch--; pend.push_back(o.id); }
+          if (got_req) { watch--; pend.push_back(nlid); }
         } else {
           cc_bound++;
           if (dup_id) break;
@@ -233,7 +251,7 @@ std::string vf_run(const Case &c, vf::Ctx &ctx) {
           if (p.type == 'i') out = (double)(int32_t)u; else { float f; memcpy(&f, &u, 4); out = f; }
           if (!(out >= p.mn - 1e-6 * fabs(p.mn) && out <= p.mx + 1e-6 * fabs(p.mx))) return std::string("value ") + std::to_string(out) + " for " + p.path + " outside [" + std::to_string(p.mn) + "," + std::to_string(p.mx) + "]" + W;
           // 7/14-bit composition
-          val7[o.id] = o.val;
+          val7[lid] = o.val;
           int cid = -1, fid = -1;
           for (auto &kv : view) if (kv.second.first == addr) { if (kv.second.second) cid = kv.first; else fid = kv.first; }
           int x = ((cid >= 0 && val7.count(cid) ? val7[cid] : 0) << 7) | (fid >= 0 && val7.count(fid) ? val7[fid] : 0);
